@@ -17,6 +17,7 @@
      ([tdoc_root_start], [starts_at_root_dstart]).  See the statements [C12_*_known_partial] at the end of this file.
    Not covered: unknown-size masters together with global placeholders. *)
 From Ebml Require Import Base Tools Spec Writer Reader Pure Encode Proofs.Tactics Proofs.ReaderIO Proofs.Refine Proofs.PureProofs Proofs.RoundTrip Proofs.RoundTripKnown Proofs.Partial Proofs.CutExists Proofs.PartialKnown.
+From Ebml Require Import Proofs.DStart.
 
 (* the reader yields exactly: the items of everything complete (Starts of the open masters included; Ends of complete
    masters lazily, as always), then
@@ -196,6 +197,21 @@ Theorem C12_every_cut_known_buffered_partial : forall c f k cap0 script, calm sc
   c_emit_eof c = true -> Forall (kconf c []) f -> dstart c f -> (k <= length (enc_forest f))%nat ->
   run_reader c cap0 script (firstn k (enc_forest f)) [RAll] = out_tdoc (cut_doc f k).
 Proof. intros c f k cap0 script Hc. rewrite buffered_refines_pure by exact Hc. apply every_prefix_reads_known. Qed.
+
+(* the same without start hypothesis, for a consistent specification ([consistent (c_sp c)], Proofs/DStart.v: every declared
+   path that ends in an identifier is that master's declared path followed by it - true of every specification the derive macro
+   generates, C01_derive_consistent): every cut of every conforming document of the second class is a truncated document of
+   the class ... *)
+Theorem C12_cut_doc_correct_known_consistent : forall c f k, consistent (c_sp c) -> Forall (kconf c []) f ->
+  (k <= length (enc_forest f))%nat -> kconf_tdoc c (cut_doc f k) /\ enc_tdoc (cut_doc f k) = firstn k (enc_forest f).
+Proof. exact cut_doc_correct_known_consistent. Qed.
+
+(* ... and the strict reader (no buffered masters, End items at the end of the input) run on the first k bytes yields exactly
+   the outputs of [cut_doc f k] *)
+Theorem C12_every_cut_known_consistent_partial : forall c f k, strict c -> c_buffered c = [] -> c_emit_eof c = true ->
+  consistent (c_sp c) -> Forall (kconf c []) f -> (k <= length (enc_forest f))%nat ->
+  p_run c (firstn k (enc_forest f)) [RAll] = out_tdoc (cut_doc f k).
+Proof. exact every_prefix_reads_known_consistent. Qed.
 
 (* Root 129; Void 236 global at depth >= 1, declared (1-); Rec 131 a recursive master, declared Root/(-)/Rec; Leaf 16642 below Rec
    at any depth; Top 132 a global master, declared (-) *)
